@@ -73,9 +73,12 @@ def neighbours(rng, shape, rows, bounded, k):
 
 def gen_config(rng, mech, attrs, shape):
     eps = float(gen.pick(rng, [0.1, 1.0, 10.0]))
-    delta = float(gen.pick(rng, [1e-9, 1e-6, 1e-3]))
+    delta = float(gen.pick(rng, [1e-12, 1e-9, 1e-6, 1e-3]))
+    # another mechanism ran earlier in the process with the same epsilon and another delta (its budget conversion happened)
+    prior_delta = gen.pick(rng, [None, 1e-9, 1e-12, 1e-6])
     # a Domain built from an array (df.max() + 1) carries numpy integers as sizes; one built from json carries ints
-    cfg = dict(mech=mech, eps=eps, delta=delta, bounded=False, accounting='zcdp', np_sizes=bool(rng.rand() < 0.3))
+    cfg = dict(mech=mech, eps=eps, delta=delta, bounded=False, accounting='zcdp', np_sizes=bool(rng.rand() < 0.3),
+               prior_delta=(None if prior_delta == delta else prior_delta))
     pairs = list(itertools.combinations(attrs, 2))
     if mech == 'aim':
         if rng.rand() < 0.5:
@@ -151,6 +154,8 @@ class Harness:
         df = pd.DataFrame(np.asarray(rows).reshape(-1, len(attrs)), columns=list(attrs)).astype(int)
         data = m.Dataset(df, dom)
         mon = self.mon
+        if mode == 'record' and cfg.get('prior_delta'):
+            env.load_mechanism('cdp2adp').cdp_rho(cfg['eps'], cfg['prior_delta'])
         mon.start(mode, private_seed, post_seed, replay=replay, inject=inject)
         out = dict(events=None, output=None, error=None, error_type=None, mismatch=None, domain_ok=None)
         try:
